@@ -308,9 +308,12 @@ static void *tramp(void *p) {
     schedule();                      /* pass the baton on; we do not wait */
     return r;
 }
+int sch_create_fail_nth;               /* deviation set by the harness: the n-th pthread_create of an execution (1-based) fails with EAGAIN; 0 = never */
+static int ncreate;
 int __wrap_pthread_create(pthread_t *th, const pthread_attr_t *attr, void *(*fn)(void *), void *arg) {
     if (!active) return __real_pthread_create(th, attr, fn, arg);
     point(OP_CREATE, nT);
+    if (++ncreate == sch_create_fail_nth) { T[cur].hb = hbmix(T[cur].hb, 0xfa11); return EAGAIN; }
     if (nT >= MAXT) sch_fail("INTERNAL", "INTERNAL", "too many threads");
     int id = nT;
     memset(&T[id], 0, sizeof T[id]);
@@ -338,7 +341,7 @@ void sch_pass(void) { if (active) point(OP_PASS, 0); }
 
 /* ---- one execution (child process) ---- */
 static void child_run(void) {
-    memset(T, 0, sizeof T); nT = 1; nM = 0; nC = 0; cur = 0; step_clock = 0;
+    memset(T, 0, sizeof T); nT = 1; nM = 0; nC = 0; cur = 0; step_clock = 0; ncreate = 0;
     T[0].st = ST_READY; T[0].op = OP_START;
     active = 1;
     hx_main();
